@@ -365,6 +365,18 @@ impl World for WorldG {
         e.nonce = rng.bytes32();
         pool.push(e);
         pool.push(gen_set(rng, &keys, &sorted));
+        // long histories: one run in eight (for the properties about retention) gets eighteen more sets —
+        // nonce variants of the first one — and starts with a burst of rotations through all of them, so that
+        // sets lie 16, 17, ... rotations back (any fixed cap on the window shows)
+        let long_history = matches!(focus, "C08" | "C01" | "C03") && rng.chance(1, 8);
+        let base_pool = pool.len();
+        if long_history {
+            for k in 0..18u8 {
+                let mut s = pool[0].clone();
+                s.nonce = keccak(&[b"long-history".as_ref(), &[k]].concat());
+                pool.push(s);
+            }
+        }
         // ---- gateways
         let two = rng.chance(if focus == "C01" { 1 } else { 1 }, if focus == "C01" { 2 } else { 4 });
         let ngw = if two { 2 } else { 1 };
@@ -380,7 +392,7 @@ impl World for WorldG {
                 initial.push(gateways_first_initial(&gateways));
             }
             while initial.len() < ninit {
-                let i = rng.usize(pool.len());
+                let i = rng.usize(base_pool);
                 if !initial.contains(&i) && pool.iter().take(i).all(|s| s.hash() != pool[i].hash()) {
                     initial.push(i);
                 }
@@ -390,9 +402,13 @@ impl World for WorldG {
                 "C08" | "C03" => *rng.pick(&[0u64, 0, 1, 10]),
                 _ => *rng.pick(&[0u64, 0, 0, 1, 3600]),
             };
-            let retention = match focus {
-                "C08" => *rng.pick(rets),
-                _ => *rng.pick(&[0u64, 1, 1, 2, 10, u64::MAX]),
+            let retention = if long_history && g == 0 {
+                *rng.pick(&[16u64, 17, 20, 1 << 40, u64::MAX])
+            } else {
+                match focus {
+                    "C08" => *rng.pick(rets),
+                    _ => *rng.pick(&[0u64, 1, 1, 2, 10, u64::MAX]),
+                }
             };
             guess.latest.push(*initial.last().unwrap());
             guess.installed.push(initial.clone());
@@ -429,6 +445,15 @@ impl World for WorldG {
         }
         let nops = rng.range(20, if p.thorough { 80 } else { 60 }) as usize;
         let mut ops: Vec<GOp> = vec![];
+        if long_history {
+            for i in base_pool..pool.len() {
+                let by = guess.latest[0];
+                ops.push(GOp::Rotate { gw: 0, cand: Cand::Pool(i as u8), proof: honest_proof(rng, &pool, by, false), bypass: true, auth: AuthVar::Right, abort: None });
+                guess.latest[0] = i;
+                guess.installed[0].push(i);
+            }
+            ops.push(GOp::RetentionSweep { gw: 0, via_approve: rng.chance(1, 2) });
+        }
         for _ in 0..nops {
             let g = rng.usize(ngw);
             let fault = p.faults && rng.chance(2, 5);
